@@ -84,7 +84,10 @@ def run(ctx: core.Ctx):
             if len(fz) == len(zs) and not all((b - a) * d >= -1e-12 for a, b in zip(fz, fz[1:])):
                 ctx.violation(f"{k}.tsukamoto/monotone/{palette}", base, "monotone in the direction of the term", fz)
             try:
-                A = np.asarray(term.tsukamoto(np.array(ys)), dtype=float)
+                arg = np.array(ys)
+                A = np.asarray(term.tsukamoto(arg), dtype=float)
+                if not np.array_equal(arg, np.array(ys)):
+                    ctx.violation(f"{k}.tsukamoto/argument-mutated", base, ys, arg.tolist(), note="the caller's array of degrees was modified in place")
                 A2 = np.asarray(term.tsukamoto(np.array(ys + ys).reshape(2, -1)), dtype=float)
                 ctx.count(2)
                 if A.shape != (len(ys),) or not np.allclose(A, zs, rtol=0, atol=1e-12, equal_nan=True) or A2.shape != (2, len(ys)) or not np.allclose(A2[1], zs, rtol=0, atol=1e-12, equal_nan=True):
